@@ -8,12 +8,16 @@
      mode 1: all ascending index lists of the n-leaf tree whose smallest index is a
      mode 2: all duplicate-free lists of at most MaxOrdered indexes, in every order, that start with a
      mode 3: the tree itself (root, all single openings)
-     mode 4: rows r of the CASES file with r % FileChunks = a *)
+     mode 4: rows r of the CASES file with r % FileChunks = a
+     mode 5 (n = depth): arbitrary malformed proofs of that depth: every index list of at most ShapeMaxIdx
+             entries over ShapeIdxAlphabet (duplicates and out-of-range values included), every
+             sequence of at most ShapeMaxVecs node-vector lengths over ShapeLenAlphabet, 0..3 leaves *)
 EXTENDS MerkleCases, IOUtils
 
 CONSTANTS Sizes,        \* tree sizes enumerated exhaustively
           MaxOrdered,   \* all orders for lists of at most this many indexes
-          FileChunks    \* 0: no CASES file
+          FileChunks,   \* 0: no CASES file
+          ShapeDepths, ShapeIdxAlphabet, ShapeMaxIdx, ShapeLenAlphabet, ShapeMaxVecs   \* ShapeDepths = {}: none
 
 TreeCase(n) == Mk("tree", n, <<>>, [i \in 1..n |-> i - 1], FALSE)
 
@@ -28,6 +32,7 @@ ChunksImpl ==
          \cup {Mk("chunk", n, <<1, a>>, <<>>, FALSE) : a \in 0..(n - 1)}
          \cup {Mk("chunk", n, <<2, a>>, <<>>, FALSE) : a \in 0..(n - 1)} : n \in Sizes}
   \cup {Mk("chunk", 0, <<4, a>>, <<>>, FALSE) : a \in 0..(FileChunks - 1)}
+  \cup {Mk("chunk", d, <<5, 0>>, <<>>, FALSE) : d \in ShapeDepths}
 
 CasesOfImpl(ch) ==
   LET n == ch.n  mode == ch.idx[1]  a == ch.idx[2] IN
@@ -38,4 +43,8 @@ CasesOfImpl(ch) ==
     [] mode = 4 -> LET rows == ndJsonDeserialize(IOEnv.CASES) IN
                    {Mk(rows[r].kind, rows[r].n, rows[r].idx, rows[r].sidx, rows[r].alld) :
                       r \in {x \in 1..Len(rows) : x % FileChunks = a}}
+    [] mode = 5 -> {Mk("shape", n, ix, lens \o <<nl>>, FALSE) :
+                      ix \in UNION {[1..m -> ShapeIdxAlphabet] : m \in 0..ShapeMaxIdx},
+                      lens \in UNION {[1..m -> ShapeLenAlphabet] : m \in 0..ShapeMaxVecs},
+                      nl \in 0..3}
 =============================================================================
